@@ -175,6 +175,7 @@ type gffOpts struct {
 	SequenceRegion bool `json:"sequence_region"` // emit ##sequence-region
 	WithFasta      bool `json:"with_fasta"`      // emit ##FASTA section
 	GeneRows       bool `json:"gene_rows"`       // emit extra non-CDS rows (gene), which must be ignored
+	SortRows       bool `json:"sort_rows"`       // rows in coordinate order: rows sharing an ID are no longer adjacent
 }
 
 func (a Anno) renderGFF(o gffOpts) string {
@@ -185,6 +186,11 @@ func (a Anno) renderGFF(o gffOpts) string {
 		sb.WriteString(fmt.Sprintf("##sequence-region %s 1 %d\n", a.RefName, L))
 	}
 	sb.WriteString("#!annotation-source synthetic\n")
+	type gffRow struct {
+		start, order int
+		text         string
+	}
+	var rows []gffRow
 	for fi, f := range a.Feats {
 		id := fmt.Sprintf("cds%d", fi+1)
 		typ := f.GFFType
@@ -196,7 +202,7 @@ func (a Anno) renderGFF(o gffOpts) string {
 			strand = "-"
 		}
 		if o.GeneRows {
-			sb.WriteString(fmt.Sprintf("%s\tsynthetic\tgene\t%d\t%d\t.\t%s\t.\tID=gene%d\n", a.RefName, f.minPos(), f.maxPos(), strand, fi+1))
+			rows = append(rows, gffRow{f.minPos(), len(rows), fmt.Sprintf("%s\tsynthetic\tgene\t%d\t%d\t.\t%s\t.\tID=gene%d\n", a.RefName, f.minPos(), f.maxPos(), strand, fi+1)})
 		}
 		// phases per row, in translation order
 		order := make([]int, len(f.Segs))
@@ -226,8 +232,15 @@ func (a Anno) renderGFF(o gffOpts) string {
 			if f.Name != "" {
 				attrs += ";Name=" + f.Name
 			}
-			sb.WriteString(fmt.Sprintf("%s\tsynthetic\t%s\t%d\t%d\t.\t%s\t%d\t%s\n", a.RefName, typ, s.Start, s.End, strand, phase[si], attrs))
+			rows = append(rows, gffRow{s.Start, len(rows), fmt.Sprintf("%s\tsynthetic\t%s\t%d\t%d\t.\t%s\t%d\t%s\n", a.RefName, typ, s.Start, s.End, strand, phase[si], attrs)})
 		}
+	}
+	if o.SortRows {
+		// coordinate-sorted file (stable): the rows of a joined CDS are separated by whatever lies in its gaps
+		sort.SliceStable(rows, func(i, j int) bool { return rows[i].start < rows[j].start })
+	}
+	for _, r := range rows {
+		sb.WriteString(r.text)
 	}
 	if o.WithFasta {
 		sb.WriteString("##FASTA\n>" + a.RefName + "\n")
